@@ -314,6 +314,8 @@ def run(selected):
         if selected and not any(name.startswith(p) for p in selected):
             continue
         before = set(glob.glob('/verif/replays/C17/*'))
+        dirty0 = subprocess.run(['git', '-C', '/repo', 'status', '--short'],
+                                stdout=subprocess.PIPE, text=True).stdout
         t0 = time.time()
         pr = subprocess.run(
             ['./check', 'C17', '--run', '^%s$' % test, '--mutate',
@@ -329,6 +331,11 @@ def run(selected):
         m = re.search(r'failed after (\d+) tests: (.*)', out)
         built = re.search(r'built \S+ in (\d+)s', out)
         after, first = (m.group(1), m.group(2)[:230]) if m else ('-', '')
+        dirty1 = subprocess.run(['git', '-C', '/repo', 'status', '--short'],
+                                stdout=subprocess.PIPE, text=True).stdout
+        if dirty0.strip() or dirty1.strip():
+            # somebody else's seeded patch was in /repo during the run
+            verdict += '(REPO_DIRTY)'
         if verdict == 'OTHER':
             first = out.strip().splitlines()[-1][:230] if out.strip() else ''
         print('%-34s %-7s cases_to_fail=%-4s wall=%3ds (build %ss)  %s' % (
